@@ -1,16 +1,17 @@
 SPECIFICATION Spec
 CONSTANTS
-  D = 7
-  Mode = "pairs"
+  D = 3
+  Mode = "families"
   Width = 2
   Foreigns = FALSE
-  Wraps = FALSE
-  WrapMax = 0
+  Wraps = TRUE
+  WrapMax = 1
   ForeignVals <- ForeignValsQuick
   ForeignBase <- ForeignBaseQuick
   WithAcc = FALSE
   ExportMode = "verdict"
 INVARIANT EmptyAccepts
 INVARIANT NoSurprises
+INVARIANT C06Spec
 INVARIANT ExportInv
 CHECK_DEADLOCK FALSE
